@@ -13,7 +13,9 @@ def main():
     import consts
     import interval
     import configrules
-    for name, txt in (("Consts.lean", consts.generate(repo)), ("Interval.lean", interval.generate(repo)), ("ConfigRules.lean", configrules.generate(repo))):
+    import guards
+    for name, txt in (("Consts.lean", consts.generate(repo)), ("Interval.lean", interval.generate(repo)), ("ConfigRules.lean", configrules.generate(repo)),
+                      ("Guards.lean", guards.generate(repo))):
         path = os.path.join(outdir, name)
         old = open(path).read() if os.path.exists(path) else None
         if old != txt:
